@@ -911,7 +911,7 @@ func main() {
 	e.ctl = lib.New()
 	for _, s := range []string{"swamp.autodestroy", "swamp.idle.read", "gateway.set.summoned", "swamp.flush.begin",
 		"chronicler.write.begin", "swamp.flush.wrote", "swamp.destroy.cancelled", "swamp.callback",
-		"swamp.deletehandler.begin", "swamp.deletehandler.end"} {
+		"swamp.deletehandler.begin", "swamp.deletehandler.end", "gateway.set.key"} {
 		e.ctl.Park[s] = true
 	}
 	e.ctl.Keep = func(site string) bool { return !strings.HasPrefix(site, "summon.") }
@@ -963,6 +963,14 @@ func main() {
 		}
 	}
 	for wi := 0; wi <= 1; wi++ {
+		for _, snap := range []bool{false, true} {
+			wi, snap := wi, snap
+			nm := fmt.Sprintf("%s/v/n%d", pat(wi, true), n)
+			n++
+			scen = append(scen, func() caseRec { return e.vigilIdle(nm, wi, snap) })
+		}
+	}
+	for wi := 0; wi <= 1; wi++ {
 		for _, via := range []string{"delete", "shift"} {
 			for _, site := range []string{"swamp.deletehandler.begin", "swamp.deletehandler.end"} {
 				for _, double := range []bool{false, true} {
@@ -998,7 +1006,11 @@ func main() {
 	if a.Tier == "thorough" {
 		nser, nidle, nstress, sdur = 1200, 120, 16, 60*time.Second
 	}
-	free := make([]caseRec, nser+nidle+nstress)
+	nshift := 60
+	if a.Tier == "thorough" {
+		nshift = 600
+	}
+	free := make([]caseRec, nser+nidle+nstress+nshift)
 	recs := make([][]*opRec, len(free))
 	rngs := make([]*common.Rng, len(free))
 	for i := range rngs {
@@ -1012,6 +1024,8 @@ func main() {
 			free[i] = e.serial(fmt.Sprintf("%s/s/n%d", pat(i%2, false), i), i%2, rngs[i], false)
 		case i < nser+nidle:
 			free[i] = e.serial(fmt.Sprintf("%s/i/n%d", pat(i%2, true), i), i%2, rngs[i], true)
+		case i >= nser+nidle+nstress:
+			free[i] = e.indexShift(fmt.Sprintf("%s/x/n%d", pat(i%2, false), i), i%2, rngs[i])
 		default:
 			free[i], recs[i] = e.stress(fmt.Sprintf("c16d/x/n%d", i), rngs[i], sdur, &opSeq)
 		}
